@@ -1,15 +1,23 @@
 #!/bin/bash
-# usage: seedregress.sh [name-pattern]   : every stored seeded change against its property's quick check at plain
+# usage: seedregress.sh [name-pattern...]   : every stored seeded change against its property's quick check at plain
 # quick depth (CPF_NO_ADAPTIVE=1). Prints one line per seed: CAUGHT (concrete replay) / BROKEN-ONLY / MISSED / NOAPPLY.
-cd /repo || exit 2
-if [ -n "$(git status --porcelain --untracked-files=no)" ]; then echo "repo not clean"; exit 2; fi
-for d in /verif/seeded/${1:-*}/; do
+# With CPF_REPO set (a scratch clone or worktree of the repository, e.g. $VP_RUN_REPO inside `vp run --with-repo`)
+# the patches are applied there and the checks read that tree, so several instances can run side by side, each in
+# its own snapshot of /verif and of the repository; without it, /repo is patched and restored.
+V="$(cd "$(dirname "$0")/.." && pwd)"
+R="${CPF_REPO:-/repo}"
+if [ -n "$(git -C "$R" status --porcelain --untracked-files=no)" ]; then echo "repository $R not clean"; exit 2; fi
+[ $# -eq 0 ] && set -- '*'
+for pat in "$@"; do
+for d in "$V"/seeded/$pat/; do
+  [ -f "$d/patch.diff" ] || continue
   n=$(basename "$d"); P=${n%%-*}
-  if ! git -C /repo apply --check "$d/patch.diff" 2>/dev/null; then echo "NOAPPLY $n"; continue; fi
-  git -C /repo apply "$d/patch.diff"
-  out=$(cd /verif && CPF_NO_ADAPTIVE=1 ./check "$P" quick 2>&1 | grep -a "^VIOLATION" | grep -v KNOWN)
-  git -C /repo checkout -- .
-  if echo "$out" | grep -q "no-failing-input-found"; then echo "BROKEN-ONLY $n"
-  elif [ -n "$out" ]; then echo "CAUGHT $n"
-  else echo "MISSED $n"; fi
+  if ! git -C "$R" apply --check "$d/patch.diff" 2>/dev/null; then echo "NOAPPLY $n"; continue; fi
+  git -C "$R" apply "$d/patch.diff"
+  out=$(cd "$V" && CPF_NO_ADAPTIVE=1 ./check "$P" quick 2>&1 | grep -a "^VIOLATION" | grep -v KNOWN)
+  git -C "$R" checkout -- .
+  if [ -z "$out" ]; then echo "MISSED $n"
+  elif echo "$out" | grep -qv "no-failing-input-found"; then echo "CAUGHT $n"
+  else echo "BROKEN-ONLY $n"; fi
+done
 done
